@@ -28,7 +28,13 @@ MODES = ["delay"] * 6 + ["delayvolume"] * 2 + ["ssa", "volume"]
 
 
 def gen_case(case_seed, cfg):
-    return c06.gen_case(case_seed, cfg, modes=MODES, plain_delay_p=1.0, far_p=0.08)
+    case = c06.gen_case(case_seed, cfg, modes=MODES, plain_delay_p=1.0, far_p=0.08)
+    r = seeds.rng(case_seed, "c10")
+    if case["mode"] == "delay" and len(case["grid"]) >= 5 and r.random() < 0.3:
+        # continued run: the second segment starts from the first one's final state and returned queue
+        case["entry"] = "direct"
+        case["split"] = r.randint(1, len(case["grid"]) - 3)
+    return case
 
 
 def accounting(case, raw, stats):
@@ -116,8 +122,11 @@ def run_case(case):
     viols = list(ls["violations"])
     ref = ls.get("ref")
     stats["mode_" + case["mode"]] = 1
+    if case.get("split"):
+        stats["fired_continued_run"] = 1
     if not raw.get("error"):
-        viols += pathinv.check_rows(case, raw, stats)
+        if not case.get("split"):
+            viols += pathinv.check_rows(case, raw, stats)
         if case["mode"] in ("delay", "delayvolume") and not raw.get("dropped"):
             viols += accounting(case, raw, stats)
     c06.fault_counters(case, raw, ref, stats)
@@ -167,7 +176,7 @@ def reach_warnings(stats):
     out = []
     for k in ("fired_burst", "fired_stall", "fired_neg_or_zero_delay", "fired_tiny_delay", "fired_late_delay",
               "mode_delay", "mode_delayvolume", "mode_ssa", "mode_volume", "dtype_fixed", "dtype_gaussian", "dtype_gamma",
-              "delayed_reactant_firings", "still_queued", "deliveries", "dist_models"):
+              "delayed_reactant_firings", "still_queued", "deliveries", "dist_models", "fired_continued_run"):
         if stats.get(k, 0) == 0:
             out.append(f"kind {k} never fired in this batch")
     return out
